@@ -203,7 +203,10 @@ func (p *Processor) ChargingDataCreate(
 	consumerId := chargingData.NfConsumerIdentification.NFName
 	if !chargingData.OneTimeEvent {
 		// the counter is delimited: "smf1"+"2" and "smf"+"12" must not yield the same reference
-		chargingSessionId = ueId + consumerId + "-" + strconv.Itoa(int(self.LocalRecordSequenceNumber))
+		self.Lock()
+		recordSeq := self.LocalRecordSequenceNumber
+		self.Unlock()
+		chargingSessionId = ueId + consumerId + "-" + strconv.Itoa(int(recordSeq))
 	}
 	cdr, err := p.OpenCDR(chargingData, ue, chargingSessionId, false)
 	if err != nil {
